@@ -118,8 +118,8 @@ def plan_for(ctx, n):
     if n <= 4:
         # all (c, D) merge-base questions, all fast-forward pairs, every set in two orders for octopus /
         # independent; walks: all (include set, exclude set) pairs in the thorough tier
-        return dict(full=True, both_modes=True, n_mbm=0, n_oct=0, n_ind=0, full_walk=not ctx.quick, topo_frac=0.25,
-                    n_walk=12, n_walkopt=6, p_model=0.004)
+        return dict(full=True, full_mb=not ctx.quick, both_modes=True, n_mbm=8, n_oct=0, n_ind=0, full_walk=not ctx.quick,
+                    topo_frac=0.25, n_walk=10, n_walkopt=5, p_model=0.004)
     if n == 5:
         return dict(full=False, both_modes=False, n_mbm=4, n_oct=3, n_ind=2, full_walk=False,
                     n_walk=4, n_walkopt=2, topo_frac=0.5, p_model=0.0005 if not ctx.quick else 0.004)
@@ -134,21 +134,24 @@ def replay_dump(ctx, pool, n, dump, label, budget_s):
     t0 = time.time()
     tables, cases = L.read_cases(dump)
     plan = plan_for(ctx, n)
-    tasks = [dict(n=n, par=p, table=tables[p], cases=cs, plan=plan, seed=ctx.seed) for p, cs in sorted(cases.items())]
+    tasks = []
+    for p, cs in sorted(cases.items()):
+        cs = sorted(cs)
+        for i in range(0, len(cs), 48):           # at most 48 clocks of one DAG per task
+            tasks.append(dict(n=n, par=p, table=tables[p], cases=cs[i:i + 48], plan=plan, seed=ctx.seed, first=(i == 0),
+                              deadline=t0 + budget_s))
     ctx.rng.shuffle(tasks)
     ncase = sum(len(cs) for cs in cases.values())
+    ndag = len(cases)
     chunk = max(1, min(32, len(tasks) // (PROCS * 16)))
     stats = {"cases": 0, "queries": 0, "suspect": 0, "by_kind": {}, "dags_done": 0, "tlc_cases_done": 0}
 
-    def feed():
-        for t in tasks:
-            if time.time() - t0 > budget_s:
-                return
-            stats["dags_done"] += 1
-            stats["tlc_cases_done"] += len(t["cases"])
-            yield t
     records = []
-    for r in pool.imap_unordered(L.run_dag, feed(), chunksize=chunk):
+    for r in pool.imap_unordered(L.run_dag, tasks, chunksize=chunk):
+        if r["skipped"]:
+            continue
+        stats["dags_done"] += 1 if r["first"] else 0
+        stats["tlc_cases_done"] += r["tlc_cases"]
         stats["cases"] += r["cases"]
         stats["queries"] += r["queries"]
         stats["suspect"] += r["suspect_q"]
@@ -161,7 +164,7 @@ def replay_dump(ctx, pool, n, dump, label, budget_s):
         records += r["records"]
     ctx.count(stats["queries"])
     ctx.validated(stats["queries"])
-    complete = stats["dags_done"] == len(tasks)
+    complete = stats["tlc_cases_done"] == ncase
     ctx.log(f"{label}: {len(tables)} DAGs x clocks = {ncase} TLC cases; replayed {stats['tlc_cases_done']} of them "
             f"({stats['dags_done']} DAGs{'' if complete else ', time budget reached'}) as {stats['cases']} histories, "
             f"{stats['queries']} real queries, {stats['suspect']} do not match the table "
@@ -175,15 +178,16 @@ def replay_dump(ctx, pool, n, dump, label, budget_s):
 
 # --------------------------------------------------------------------------- random large histories
 def random_history(rng, n, clock):
-    """Criss-cross merges, octopus merges, several roots; clock: strict | ties | skew | wild."""
+    """Criss-cross merges, octopus merges, several roots; clock: strict | ties | flat | skew | wild."""
     par = []
+    linear = rng.choice((0.55, 0.55, 0.8))          # some histories are mostly long chains
     for c in range(1, n + 1):
         if c == 1 or rng.random() < 0.04:
             par.append(())
             continue
         r = rng.random()
-        k = 1 if r < 0.55 else 2 if r < 0.9 else rng.randint(3, 4)
-        window = range(max(1, c - rng.choice((2, 4, 8, 30))), c)
+        k = 1 if r < linear else 2 if r < 0.92 else rng.randint(3, 4)
+        window = range(max(1, c - rng.choice((1, 2, 4, 8, 30))), c)
         k = min(k, len(window))
         par.append(tuple(sorted(rng.sample(list(window), k))))
     ts = [0] * n
@@ -193,6 +197,8 @@ def random_history(rng, n, clock):
             ts[c - 1] = base + rng.randint(1, 3)
         elif clock == "ties":
             ts[c - 1] = max(1, base + (0 if rng.random() < 0.6 else 1))
+        elif clock == "flat":                       # long runs of commits made within the same second
+            ts[c - 1] = max(1, base + (0 if rng.random() < 0.93 else 1))
         elif clock == "skew":
             ts[c - 1] = max(1, base + rng.randint(1, 3) - (rng.randint(2, 12) if rng.random() < 0.15 else 0))
         else:
@@ -211,7 +217,17 @@ def run_random(task):
         from dulwich.repo import Repo
         os.makedirs(disk_root)
         repo = Repo.init_bare(disk_root)
-    h = L.Hist(par, ts, None, repo=repo, salt=seed)
+    cuts = None
+    if not disk_root and task.get("cuts") and n >= 6:
+        # the repository's view of the history differs from the commit objects: shallow boundary / grafts
+        cuts = {}
+        for c in rng.sample(range(2, n + 1), rng.randint(1, 2)):
+            if rng.random() < 0.5:
+                cuts[c] = ("shallow",)
+            else:
+                cuts[c] = ("graft", sorted(rng.sample(range(1, c), rng.randint(0, min(2, c - 1)))))
+    h = L.Hist(par, ts, None, repo=repo, salt=seed, cuts=cuts)
+    par = h.par
     anc = L.table_from_par(par)
     ex = L.Expect(n, par, ts, None, anc=anc)
     lv = sorted(set(ts))
@@ -226,37 +242,41 @@ def run_random(task):
         qs = []
         for _ in range(nq):
             r = rng.random()
-            if r < 0.22:
+            if r < 0.16:
                 a, b = rng.randint(1, n), rng.randint(1, n)
                 qs.append(("mb", a, [b]))
-            elif r < 0.30:
+            elif r < 0.22:
                 s = pick(rng.randint(3, 4))
                 if len(s) < 2:
                     s = sorted({s[0], 1 + s[0] % n})
                 rng.shuffle(s)
                 qs.append(("mb", s[0], s[1:]))
-            elif r < 0.52:
+            elif r < 0.38:
                 a, b = rng.randint(1, n), rng.randint(1, n)
                 if rng.random() < 0.5 and anc[b - 1] >> (a - 1) & 1 == 0:
                     # bias towards true ancestors: the interesting direction for cut-offs
                     cand = L.set_of(anc[b - 1])
                     a = rng.choice(cand)
                 qs.append(("ff", a, b))
-            elif r < 0.62:
+            elif r < 0.46:
                 s = pick(rng.randint(2, 4))
                 rng.shuffle(s)
                 qs.append(("oct", s))
-            elif r < 0.70:
+            elif r < 0.53:
                 s = pick(rng.randint(2, 4))
                 rng.shuffle(s)
                 qs.append(("ind", s))
             else:
                 i = pick(rng.randint(1, 2))
                 r2 = rng.random()
-                if r2 < 0.35:
+                if r2 < 0.25:
                     e = []
-                elif r2 < 0.8:                      # an ancestor of the includes: a real "A..B" range
+                elif r2 < 0.6:                      # an ancestor of the includes: a real "A..B" range
                     e = [rng.choice(L.set_of(ex.reach(L.mask_of(i))))]
+                elif r2 < 0.85:                     # a descendant of an include ("is anything of A not in B?")
+                    a = rng.choice(i)
+                    desc = [c for c in range(a, n + 1) if anc[c - 1] >> (a - 1) & 1]
+                    e = [rng.choice(desc)]
                 else:
                     e = pick(rng.randint(1, 2))
                 o = rng.randrange(9)
@@ -497,6 +517,8 @@ def report(ctx, judged):
         if cg:      # which kind of history: the commit-graph format treats merges of 3+ parents specially
             octo = any(len(r["par"][c - 1]) > 2 for c in L.relevant(r["par"], q))
             cg = f"commit-graph={cg},{'octopus-merge-in-history' if octo else 'no-octopus-merge'}"
+        if r.get("cuts"):
+            cg = (cg + "," if cg else "") + "shallow-or-graft-view"
         key = (L.SITES[q["k"]], clause, detail, clock, how, cg)
         s, size = L.describe(r["par"], r["ts"], q)
         g = groups.get(key)
@@ -513,7 +535,7 @@ def report(ctx, judged):
         what = (f"{clause}: {site.split(':')[1]} does not give the graph-theoretic answer ({detail}; clock of the part of "
                 f"history involved: {clock}; {how}); {cnt} failing queries in this run, smallest: {s}")
         ctx.violation(sig, what, {"clause": clause, "detail": detail, "clock": clock, "how": how, "count": cnt,
-                                  "record": {k: r[k] for k in ("par", "ts", "rank", "mode") if k in r} | {"salt": r.get("salt", 0), "cg": r.get("cg", "")},
+                                  "record": {k: r[k] for k in ("par", "ts", "rank", "mode", "cuts", "obj_par") if k in r} | {"salt": r.get("salt", 0), "cg": r.get("cg", "")},
                                   "query": q, "case": s, "variant": ctx.cov.get("graph_py_variant", {})})
     ctx.cov.setdefault("failing_groups", []).extend(
         [{"group": "|".join(x for x in k if x), "count": v[0], "smallest": v[2]} for k, v in sorted(groups.items())])
@@ -528,7 +550,7 @@ def run(ctx):
     # ---- 1. TLC enumerates the cases (spec -> code input)
     jobs.submit("cases4", "GraphCases.tla", cases_cfg(d, "cases4", 4, 4, 0, seed), dump_states=os.path.join(d, "cases4"), workers=3)
     if ctx.quick:
-        jobs.submit("cases5", "GraphCases.tla", cases_cfg(d, "cases5", 5, 5, 4, seed), dump_states=os.path.join(d, "cases5"))
+        jobs.submit("cases5", "GraphCases.tla", cases_cfg(d, "cases5", 5, 5, 3, seed), dump_states=os.path.join(d, "cases5"))
     else:
         jobs.submit("cases5", "GraphCases.tla", cases_cfg(d, "cases5", 5, 5, 0, seed), dump_states=os.path.join(d, "cases5"), workers=4)
         jobs.submit("cases6", "GraphCases.tla", cases_cfg(d, "cases6", 6, 6, 4, seed), dump_states=os.path.join(d, "cases6"), workers=6)
@@ -581,7 +603,7 @@ def run(ctx):
         ctx.add_tlc("GraphCases N=4: all 64 canonical DAGs x all 75 weak orders of timestamps", r)
         records += replay_dump(ctx, pool, 4, os.path.join(d, "cases4"), "N=4 exhaustive", ctx.pick(25, 240))
         r = jobs.get("cases5")
-        ctx.add_tlc("GraphCases N=5: all 1024 canonical DAGs x " + ("4 sampled" if ctx.quick else "all 541") + " weak orders", r)
+        ctx.add_tlc("GraphCases N=5: all 1024 canonical DAGs x " + ("3 sampled" if ctx.quick else "all 541") + " weak orders", r)
         records += replay_dump(ctx, pool, 5, os.path.join(d, "cases5"), "N=5 " + ("sampled clocks" if ctx.quick else "exhaustive"),
                                ctx.pick(12, 420))
         os.remove(os.path.join(d, "cases5.dump"))
@@ -591,13 +613,14 @@ def run(ctx):
             records += replay_dump(ctx, pool, 6, os.path.join(d, "cases6"), "N=6 sampled clocks", 180)
             os.remove(os.path.join(d, "cases6.dump"))
         # ---- 5. code -> spec: random large histories, disk repositories, commit-graph, C git
-        nbig = ctx.pick(140, 1500)
+        nbig = ctx.pick(360, 3000)
         ndisk = ctx.pick(14, 120)
         tasks = []
-        clocks = ["strict", "ties", "skew", "wild"]
+        clocks = ["strict", "ties", "skew", "flat", "wild", "ties"]
         for i in range(nbig):
             n = ctx.rng.choice([8, 10, 12, 16, 24, 40]) if ctx.quick else ctx.rng.choice([8, 12, 16, 24, 40, 80, 150, 300])
-            t = dict(seed=seed * 100003 + i, n=n, clock=clocks[i % 4], nq=ctx.pick(40, 60), ngit=ctx.pick(40, 60))
+            t = dict(seed=seed * 100003 + i, n=n, clock=clocks[i % 6], nq=ctx.pick(30, 50), ngit=ctx.pick(40, 60),
+                     cuts=(i % 5 == 4))
             if i < ndisk:
                 t["n"] = min(n, 60)
                 t["disk"] = os.path.join(d, f"disk{i}")
@@ -649,7 +672,7 @@ def run(ctx):
     ctx.cov["rule"] = ("a case = one question (merge base of c and a set, fast-forward test, octopus base, independence filter, "
                        "history walk with options) put to the real dulwich function on a real repository built from a history; "
                        "histories: every canonical DAG x weak order of timestamps TLC enumerates (N=4 exhaustive, N=5 "
-                       + ("4 sampled clocks per DAG" if ctx.quick else "exhaustive, N=6 with 4 sampled clocks per DAG; see coverage.replay for how many were replayed inside the time budget")
+                       + ("3 sampled clocks per DAG" if ctx.quick else "exhaustive, N=6 with 4 sampled clocks per DAG; see coverage.replay for how many were replayed inside the time budget")
                        + "), both id-order tie-breaks where timestamps tie, plus random histories of 8..300 commits; "
                        "distinct_nontrivial counts distinct histories that have at least one edge and two different timestamps")
     ctx.assumptions += [
@@ -677,7 +700,13 @@ def replay(ctx, path):
         root = os.path.join(d, "disk")
         os.makedirs(root)
         repo = Repo.init_bare(root)
-    h = L.Hist(par, ts, rec.get("mode"), repo=repo, salt=rec.get("salt", 0))
+    cuts = {int(c): tuple(v) for c, v in (rec.get("cuts") or {}).items()} or None
+    if cuts:
+        par = tuple(tuple(p) for p in rec["obj_par"])
+    h = L.Hist(par, ts, rec.get("mode"), repo=repo, salt=rec.get("salt", 0), cuts=cuts)
+    par = h.par
+    if cuts:
+        print(f"repository view differs from the commit objects: {cuts}")
     if rec.get("cg"):
         from dulwich.repo import Repo
         if rec["cg"] == "dulwich":
